@@ -51,5 +51,6 @@ HARNESSES += _decv()
 # no verdict in 15 min for ONE character; merged mode: pointer advance depends on the bytes -> symbolic addresses, symbolic execution does not finish in 10 min for one character).  See DESIGN section 3.
 ASSUMPTIONS = ['input length and fragmentation fixed per query (bytes symbolic); allocation never fails; every heap access checked against the harness object table',
                'UTF-8/UTF-16 transforms are not covered by this check']
-LEVEL_TEXT = 'Base32 / Base32Hex / Base64 through the real transform.c + data.c with SYMBOLIC input bytes: (a) arbitrary text of 1 (thorough 2, and 4 split inside a group) characters decoded path by path: result NULL or of plausible size, no out-of-bounds heap access, no absurd allocation - this found the padding underflow fixed in /repo; (b) the real encoder on 1..6 symbolic bytes, unfragmented and split into two regions, against an independent RFC 4648 reference decoder written in the harness: length, alphabet, padding and recovered bytes.'
-LEVEL_NOTE = 'The real decoder on multi-group text (needed for a full real-encoder/real-decoder round trip and for splits inside a group) is in the thorough tier only; UTF-8/UTF-16 transforms are NOT covered.'
+LEVEL_TEXT = 'Base32 / Base32Hex / Base64 through the real transform.c + data.c with SYMBOLIC input bytes: (c) the real DECODER on valid texts (whole groups with every RFC 4648 padding length, one (thorough: two adjacent) character(s) symbolic over the whole alphabet, the others concrete; unsplit, split inside a group, split inside the padding, two groups) against the reference decoder - with (b) this is the round trip, independent of fragmentation; it found the Base32Hex table-size defect and the split-padding defect fixed in /repo; (a) arbitrary text of 1 (thorough 2, and 4 split inside a group) characters decoded path by path: result NULL or of plausible size, no out-of-bounds heap access, no absurd allocation - this found the padding underflow fixed in /repo; (b) the real encoder on 1..6 symbolic bytes, unfragmented and split into two regions, against an independent RFC 4648 reference decoder written in the harness: length, alphabet, padding and recovered bytes.'
+LEVEL_NOTE = 'The real decoder is run on valid texts with one symbolic alphabet character at a time (two adjacent ones in the thorough tier); arbitrary multi-character text only in the thorough tier; UTF-8/UTF-16 transforms are NOT covered (two encodings measured as out of reach, see spec.py / DESIGN).'
+ASSUMPTIONS = list(ASSUMPTIONS) + ['valid-text decoder mode: the text is a fixed valid encoding in which the characters selected by a mask are replaced by arbitrary characters of the alphabet (symbolic); the input buffer is mirrored byte by byte (byte window) so that concrete characters stay constants for the path-wise exploration']
